@@ -15,6 +15,7 @@ theorem new_eq (p : Nat) :
     (new p : Res (AverageTrueRange F)) =
       if p = 0 then .err .InvalidParameter else .ok (fresh p) := by
   unfold new
+  try simp only [gen_helper]
   rw [ExponentialMovingAverage.new_eq]
   by_cases h0 : p = 0 <;> simp [h0, bind, Res.bind, fresh, TrueRange.new_eq]
 
